@@ -17,4 +17,4 @@ def prop(pid, **kw):
 import os, glob
 _d = os.path.join(os.path.dirname(os.path.abspath(__file__)), "props.d")
 for _f in sorted(glob.glob(os.path.join(_d, "*.py"))):
-    exec(compile(open(_f).read(), _f, "exec"), {"prop": prop, "PROPS": PROPS})
+    exec(compile(open(_f).read(), _f, "exec"), {"prop": prop, "PROPS": PROPS, "_f": _f})
